@@ -6,6 +6,7 @@
 #include <hgraph/runtime/lifecycle_observer.h>
 #include <hgraph/runtime/logger.h>
 #include <hgraph/types/metadata/type_record_registry.h>
+#include <hgraph/types/utils/counted_mutex.h>
 #include <hgraph/util/scope.h>
 #include <hgraph/util/verif_hooks.h>
 
@@ -1553,6 +1554,9 @@ namespace hgraph
 
     ExecutorTypeRef GraphExecutorBuilder::type() const
     {
+        // Executors may be made on several threads at once; the runtime type registry is process-wide build-time state.
+        static TypeSystemMutex registry_mutex;
+        std::lock_guard        lock{registry_mutex};
         if (!type_) { type_ = executor_runtime_registry().make_type(*this); }
         return type_;
     }
